@@ -16,8 +16,9 @@ from ..engine import REPO, lean_list, lean_str
 MODULES = ["Iodata.Props.C13"]
 RULE = (
     "frame sequences of 1-50 frames (random atom counts 1-9 and compositions, titles None/plain/padded/separator-looking "
-    "'$$$$','END','12','@<TRIPOS>MOLECULE','M  END', bonds, mol2 charges) are written by the REAL dump_many (xyz, pdb, "
-    "mol2, sdf) or by the harness' own renderer (extxyz, gromacs); each file is then (traj) loaded whole, (trajc) cut "
+    "'$$$$','END','12','@<TRIPOS>MOLECULE','M  END', for pdb also multi-line titles up to 12 lines and multi-line "
+    "compounds, bonds, mol2 charges) are written by the REAL dump_many (xyz, pdb, mol2, sdf) or by the harness' own "
+    "renderer (extxyz, gromacs, and pdb MODEL/ENDMDL trajectories with header and MASTER/END records); each file is then (traj) loaded whole, (trajc) cut "
     "after every line, and (traj/corrupt) given one corrupted count / numeric field / separator / inserted blank line per "
     "variant; the real load_many outcome (frames yielded with atom count, bond count, title, warning flag; final outcome "
     "and the line number of the LoadError) is compared with the Lean model fed the same lines (per-line record validity "
@@ -111,6 +112,29 @@ def _calls(node, name):
     return any(isinstance(c, ast.Call) and ast.unparse(c.func) == name for c in ast.walk(node))
 
 
+def nomolecule_classes(fmt):
+    """Names of private exception classes of the module that stand for load_one's "no molecule left": a direct
+    subclass of LoadError with no body of its own, raised exactly once in the module, namely in load_one as the only
+    statement under `if not molecule_found:`.  In the model that site is the only source of `.loadError` inside
+    load_one, so a handler naming such a class catches exactly the model's `.loadError`."""
+    tree = ast.parse(_src(fmt))
+    out = []
+    for n in tree.body:
+        if not (isinstance(n, ast.ClassDef) and [ast.unparse(b) for b in n.bases] == ["LoadError"]):
+            continue
+        if any(not (isinstance(b, ast.Pass) or (isinstance(b, ast.Expr) and isinstance(b.value, ast.Constant)))
+               for b in n.body):
+            continue
+        raises = [r for r in ast.walk(tree) if isinstance(r, ast.Raise) and isinstance(r.exc, ast.Call)
+                  and ast.unparse(r.exc.func) == n.name]
+        lo = _func(tree, "load_one")
+        sites = [i for i in ast.walk(lo) if isinstance(i, ast.If) and ast.unparse(i.test) == "not molecule_found"
+                 and len(i.body) == 1 and i.body[0] in raises and not i.orelse]
+        if len(raises) == 1 and len(sites) == 1:
+            out.append(n.name)
+    return out
+
+
 def loop_skeleton(fmt):
     """(peek kind, handlers) of <fmt>.load_many; raises when the loop has a shape the model does not cover."""
     fn = _func(ast.parse(_src(fmt)), "load_many")
@@ -153,11 +177,12 @@ def loop_skeleton(fmt):
     if peek == "scanMolecule" and not any(ast.unparse(s) == "nframe += 1" for s in tail):
         raise ValueError("nframe is not incremented")
     handlers = []
+    special = nomolecule_classes(fmt)
     for h in list(inner_handlers) + list(outer_handlers):
         names = _exc_names(h)
         excs = []
         for n in names:
-            for e in EXC_SETS.get(n, [".other"]):
+            for e in EXC_SETS.get(n, [".loadError"] if n in special else [".other"]):
                 if e not in excs:
                     excs.append(e)
         handlers.append((excs, _handler_act(h)))
@@ -473,6 +498,9 @@ TITLES = [None, "", "Frame {i}", "water {i}", "$$$$", "END", "12", "  padded {i}
           "TITLE", "3", "ENDMDL", "@<TRIPOS>ATOM", "x,y t= 1.0", "a  b\tc", "-1", "MODEL 1", "HETATM", "CONECT"]
 
 
+PDB_MULTI_TITLES = ["two\nlines {i}", "a\n\nb", "  padded {i} \n second  \nthird", "END\nENDMDL\nATOM", "x\n" * 11 + "y"]
+
+
 def rand_frame(rng, i, fmt, natom=None):
     from iodata import IOData
     from iodata.utils import angstrom
@@ -481,8 +509,12 @@ def rand_frame(rng, i, fmt, natom=None):
     atnums = np.array([rng.choice([1, 6, 7, 8, 9, 15, 16, 17, 26, 35]) for _ in range(n)])
     atcoords = np.array([[round(rng.uniform(-9, 9), 3) for _ in range(3)] for _ in range(n)]) * angstrom
     t = rng.choice(TITLES)
+    if fmt == "pdb" and rng.random() < 0.25:
+        t = rng.choice(PDB_MULTI_TITLES)
     title = None if t is None else t.format(i=i)
     kw = dict(atnums=atnums, atcoords=atcoords)
+    if fmt == "pdb" and rng.random() < 0.3:
+        kw["extra"] = {"compound": rng.choice(["water", "first line\nsecond line", " padded \n\nEND", "ATOM\nTITLE\nx"])}
     if title is not None:
         kw["title"] = title
     if fmt in ("sdf", "mol2", "pdb") and n >= 2 and rng.random() < 0.6:
@@ -531,6 +563,24 @@ def render_gro(rng, nframes):
                                  "   1.0 1.0 1.0 0.0 0.0 0.5 0.0 0.5 0.5\n"]))
         meta.append(n)
     return lines, meta
+
+
+def render_pdb_models(rng, nframes):
+    """A MODEL/ENDMDL trajectory as other programs write it (the library itself writes END-terminated frames):
+    optional header records, then per frame `MODEL n`, the ATOM and CONECT records the real dump_one prints for a
+    random frame, `ENDMDL`; optional MASTER / END after the last model.  Returns (lines, frame start indices)."""
+    lines = list(rng.choice([[], ["TITLE     models\n"], ["REMARK   1 generated\n", "CRYST1   10.000   10.000   10.000"
+                             "  90.00  90.00  90.00 P 1           1\n"]]))
+    starts = []
+    for i in range(nframes):
+        one = real_dump_one("pdb", rand_frame(rng, i, "pdb"))
+        starts.append(len(lines) if i else 0)
+        lines.append("MODEL     %4d\n" % (i + 1))
+        lines += [l for l in one if l.startswith(("ATOM", "HETATM"))]
+        lines += [l for l in one if l.startswith("CONECT")]
+        lines.append("ENDMDL\n")
+    lines += rng.choice([["END\n"], ["MASTER        0    0    0\n", "END\n"], []])
+    return lines, starts
 
 
 def real_dump_many(fmt, frames, as_gen=False):
@@ -717,6 +767,24 @@ def correspond(ctx):
                 outs.append(o)
                 nontriv.append(True)
                 classes.append(f"corrupt:{kind}/" + ("LE" if " LE" in o else "done"))
+        if fmt == "pdb":
+            # MODEL / ENDMDL trajectories (the shape of `pdb_models_roundtrip`): whole and at every cut point
+            for _ in range(ctx.n(8, 40)):
+                nf = rng.randint(1, 6)
+                lines, _st = render_pdb_models(rng, nf)
+                if not ascii_ok(lines):
+                    continue
+                tk = tokens(fmt, lines)
+                reqs.append(f"traj {fmt} {mode} {tk}")
+                outs.append(impl_line(fmt, lines)[0])
+                nontriv.append(nf >= 2)
+                classes.append(f"models/{nf}frames")
+                if len(lines) <= 120:
+                    creqs.append(f"trajc {fmt} {mode} {tk}")
+                    couts.append("|".join(impl_line(fmt, lines[:k])[0] for k in range(len(lines) + 1)))
+                    cnt.append(True)
+                    ccls.append("all-cuts/models")
+                    ncuts += len(lines) + 1
         # corpus trajectory files
         for p in corpus_files(fmt):
             lines = open(p).readlines()
@@ -1189,6 +1257,12 @@ def search(ctx):
                 ctx.count(f"search-corrupt:{fmt}", [fmt, cl], kind + "/" + ("ok" if r is None else r[0]))
                 if r:
                     ctx.fail(f"load_many:{fmt}:{r[0]}", r[1], {"kind": "file", "fmt": fmt, "lines": cl})
+    # 3b. MODEL / ENDMDL trajectories
+    for it in range(ctx.n(10, 80) * mult):
+        nf = rng.choice([1, 2, 3, 5])
+        lines, starts = render_pdb_models(rng, nf)
+        for sig, what, inp in check_cuts_and_corruptions(ctx, "pdb", lines, nf, f"models#{it}", starts=starts):
+            ctx.fail(sig, what, inp)
     # 4. corpus trajectories: frame i == load_one of the i-th frame cut out; all cuts
     for fmt in LOADERS:
         for p in corpus_files(fmt):
